@@ -6,6 +6,7 @@ package main
 // CLI level through the real main() in a child process).  Shared by C16, C17 and C20.
 
 import (
+	"bytes"
 	"context"
 	"encoding/base64"
 	"encoding/json"
@@ -55,7 +56,7 @@ var unauthMenu = []string{AnsDigest, AnsOK, AnsBasic, Ans401, Ans404, Ans500Echo
 var authMenu = []string{AnsOK, Ans401, Ans403, Ans404, Ans500Echo, AnsNetErr, AnsCut}
 var cutMenuN = 4 // 0, 1, len/2, len-1
 
-var payloadKinds = []string{"valid", "gzip-of-nothing", "multi-member", "large", "zero-bytes", "not-gzip", "over-long-line", "blank-and-garbage-lines"}
+var payloadKinds = []string{"valid", "gzip-of-nothing", "multi-member", "large", "zero-bytes", "not-gzip", "over-long-line", "blank-and-garbage-lines", "compressed-bytes-without-0x0A"}
 
 var payloadCache = map[string][]byte{}
 
@@ -94,7 +95,19 @@ func payloadBytesUncached(kind int, host string) []byte {
 	case "blank-and-garbage-lines":
 		return gzBytes([]byte(line(1) + "\n\n   \nnot json at all\n" + line(2) + "\r\n" + line(3)))
 	}
-	return gzBytes([]byte(line(1) + "\n" + line(2) + "\n" + line(3) + "\n"))
+	// "valid": three lines whose COMPRESSED form contains a 0x0A byte; "compressed-bytes-without-0x0A": the
+	// same kind of log whose compressed form contains none (a tool that looks at the raw download for line
+	// ends sees "no lines" there).  Found by a deterministic search over a padding counter.
+	wantLF := payloadKinds[kind] != "compressed-bytes-without-0x0A"
+	for pad := 0; ; pad++ {
+		b := gzBytes([]byte(line(1) + "\n" + line(2+pad) + "\n" + line(3) + "\n"))
+		if bytes.IndexByte(b, 0x0A) >= 0 == wantLF {
+			return b
+		}
+		if pad > 5000 {
+			return b
+		}
+	}
 }
 
 func payloadProcessable(kind int) bool {
@@ -124,12 +137,12 @@ func cutAt(menu int, n int) int {
 }
 
 type atlasGenOpts struct {
-	MaxHosts     int
-	SuccessOnly  bool // only cooperative answers (challenge or not), for C16
-	HostNames    int  // 0 = h-00-00 …; 1 = names whose order differs from the sorted order
-	Supplies     bool // enumerate the ways of supplying the key pair
-	PayloadFree  bool // payload kinds as a full product instead of deviations
-	MinHosts     int  // smallest number of hosts (default 1)
+	MaxHosts        int
+	SuccessOnly     bool // only cooperative answers (challenge or not), for C16
+	HostNames       int  // 0 = h-00-00 …; 1 = names whose order differs from the sorted order
+	Supplies        bool // enumerate the ways of supplying the key pair
+	PayloadFree     bool // payload kinds as a full product instead of deviations
+	MinHosts        int  // smallest number of hosts (default 1)
 	AlwaysChallenge bool // with SuccessOnly: every request is challenged (no choice)
 }
 
